@@ -93,6 +93,12 @@ impl KeeperRig {
         Agent { shared, key_dir, log_dir }
     }
 
+    /// the key and log directories the next `start_agent(None)` will use
+    pub fn next_dirs(&self) -> (PathBuf, PathBuf) {
+        let n = self.serial.get() + 1;
+        (PathBuf::from(format!("{}/agent/keys/k{}", ns::RUN_ROOT, n)), PathBuf::from(format!("{}/agent/logs/l{}", ns::RUN_ROOT, n)))
+    }
+
     pub fn stop_agent(&self, a: &Agent) {
         a.shared.cancel_cancellation_token();
         // let the task observe the cancellation before the next case starts polling the same host
